@@ -113,7 +113,8 @@ package consensus
 // ValidateBasic): nested messages are present, bit arrays satisfy their representation invariant and
 // their size caps, a proposal names at most MaxBlockPartsCount parts. The decoder itself never panics on
 // what gogo/protobuf's Unmarshal produces (a oneof wrapper always holds the inner message it allocated).
-//@ spec func wireMsgOK(m *kcons.Message) bool = m != nil && (dyntype(m.Sum) == typeid(*kcons.Message_NewRoundStep) ==> unbox(m.Sum, *kcons.Message_NewRoundStep) != nil && unbox(m.Sum, *kcons.Message_NewRoundStep).NewRoundStep != nil) && (dyntype(m.Sum) == typeid(*kcons.Message_NewValidBlock) ==> unbox(m.Sum, *kcons.Message_NewValidBlock) != nil && unbox(m.Sum, *kcons.Message_NewValidBlock).NewValidBlock != nil) && (dyntype(m.Sum) == typeid(*kcons.Message_Proposal) ==> unbox(m.Sum, *kcons.Message_Proposal) != nil && unbox(m.Sum, *kcons.Message_Proposal).Proposal != nil) && (dyntype(m.Sum) == typeid(*kcons.Message_ProposalPol) ==> unbox(m.Sum, *kcons.Message_ProposalPol) != nil && unbox(m.Sum, *kcons.Message_ProposalPol).ProposalPol != nil) && (dyntype(m.Sum) == typeid(*kcons.Message_BlockPart) ==> unbox(m.Sum, *kcons.Message_BlockPart) != nil && unbox(m.Sum, *kcons.Message_BlockPart).BlockPart != nil) && (dyntype(m.Sum) == typeid(*kcons.Message_Vote) ==> unbox(m.Sum, *kcons.Message_Vote) != nil && unbox(m.Sum, *kcons.Message_Vote).Vote != nil) && (dyntype(m.Sum) == typeid(*kcons.Message_HasVote) ==> unbox(m.Sum, *kcons.Message_HasVote) != nil && unbox(m.Sum, *kcons.Message_HasVote).HasVote != nil) && (dyntype(m.Sum) == typeid(*kcons.Message_VoteSetMaj23) ==> unbox(m.Sum, *kcons.Message_VoteSetMaj23) != nil && unbox(m.Sum, *kcons.Message_VoteSetMaj23).VoteSetMaj23 != nil) && (dyntype(m.Sum) == typeid(*kcons.Message_VoteSetBits) ==> unbox(m.Sum, *kcons.Message_VoteSetBits) != nil && unbox(m.Sum, *kcons.Message_VoteSetBits).VoteSetBits != nil)
+//@ spec func wireSumOK(s any) bool = (dyntype(s) == typeid(*kcons.Message_NewRoundStep) ==> unbox(s, *kcons.Message_NewRoundStep) != nil && unbox(s, *kcons.Message_NewRoundStep).NewRoundStep != nil) && (dyntype(s) == typeid(*kcons.Message_NewValidBlock) ==> unbox(s, *kcons.Message_NewValidBlock) != nil && unbox(s, *kcons.Message_NewValidBlock).NewValidBlock != nil) && (dyntype(s) == typeid(*kcons.Message_Proposal) ==> unbox(s, *kcons.Message_Proposal) != nil && unbox(s, *kcons.Message_Proposal).Proposal != nil) && (dyntype(s) == typeid(*kcons.Message_ProposalPol) ==> unbox(s, *kcons.Message_ProposalPol) != nil && unbox(s, *kcons.Message_ProposalPol).ProposalPol != nil) && (dyntype(s) == typeid(*kcons.Message_BlockPart) ==> unbox(s, *kcons.Message_BlockPart) != nil && unbox(s, *kcons.Message_BlockPart).BlockPart != nil) && (dyntype(s) == typeid(*kcons.Message_Vote) ==> unbox(s, *kcons.Message_Vote) != nil && unbox(s, *kcons.Message_Vote).Vote != nil) && (dyntype(s) == typeid(*kcons.Message_HasVote) ==> unbox(s, *kcons.Message_HasVote) != nil && unbox(s, *kcons.Message_HasVote).HasVote != nil) && (dyntype(s) == typeid(*kcons.Message_VoteSetMaj23) ==> unbox(s, *kcons.Message_VoteSetMaj23) != nil && unbox(s, *kcons.Message_VoteSetMaj23).VoteSetMaj23 != nil) && (dyntype(s) == typeid(*kcons.Message_VoteSetBits) ==> unbox(s, *kcons.Message_VoteSetBits) != nil && unbox(s, *kcons.Message_VoteSetBits).VoteSetBits != nil)
+//@ spec func wireMsgOK(m *kcons.Message) bool = m != nil && wireSumOK(m.Sum)
 //@ func MsgFromProto(msg *kcons.Message) (r Message, err error)
 //@   for C18
 //@   safe
@@ -393,7 +394,7 @@ package consensus
 //@   for C15 C18
 //@   safe
 //@   requires msg != nil && dyntype(msg.Sum) == typeid(*kcons.WALMessage_EventDataRoundState) ==> unbox(msg.Sum, *kcons.WALMessage_EventDataRoundState) != nil && unbox(msg.Sum, *kcons.WALMessage_EventDataRoundState).EventDataRoundState != nil
-//@   requires msg != nil && dyntype(msg.Sum) == typeid(*kcons.WALMessage_MsgInfo) ==> unbox(msg.Sum, *kcons.WALMessage_MsgInfo) != nil && unbox(msg.Sum, *kcons.WALMessage_MsgInfo).MsgInfo != nil
+//@   requires msg != nil && dyntype(msg.Sum) == typeid(*kcons.WALMessage_MsgInfo) ==> unbox(msg.Sum, *kcons.WALMessage_MsgInfo) != nil && unbox(msg.Sum, *kcons.WALMessage_MsgInfo).MsgInfo != nil && wireSumOK(unbox(msg.Sum, *kcons.WALMessage_MsgInfo).MsgInfo.Msg.Sum)
 //@   requires msg != nil && dyntype(msg.Sum) == typeid(*kcons.WALMessage_TimeoutInfo) ==> unbox(msg.Sum, *kcons.WALMessage_TimeoutInfo) != nil && unbox(msg.Sum, *kcons.WALMessage_TimeoutInfo).TimeoutInfo != nil
 //@   requires msg != nil && dyntype(msg.Sum) == typeid(*kcons.WALMessage_EndHeight) ==> unbox(msg.Sum, *kcons.WALMessage_EndHeight) != nil && unbox(msg.Sum, *kcons.WALMessage_EndHeight).EndHeight != nil
 //@   modifies *
